@@ -105,6 +105,39 @@ def load_prop(prop_id):
     return importlib.import_module(prop_id.lower())
 
 
+def second_solver(samples, limit):
+    """re-decide exported postcondition queries with /usr/bin/z3 (4.8.12) and /usr/bin/cvc5 (1.0.3); any `(error`, or a
+    verdict that contradicts the one z3 5.1 gave through the Python API, is a problem (inconclusive)"""
+    res = dict(queries=0, z3_binary_agree=0, cvc5_agree=0, cvc5_timeout=0, z3_binary_timeout=0, problems=[])
+    if not samples:
+        return res
+    d = tempfile.mkdtemp(prefix="sx-smt-", dir="/var/tmp")
+    try:
+        for i, (expected, label, text) in enumerate(samples[:limit]):
+            f = os.path.join(d, "q%d.smt2" % i)
+            open(f, "w").write("(set-logic QF_BV)\n" + text)
+            res["queries"] += 1
+            for name, cmd in (("z3_binary", ["/usr/bin/z3", "-T:20", f]), ("cvc5", ["/usr/bin/cvc5", "--tlimit=20000", f])):
+                try:
+                    p = subprocess.run(cmd, capture_output=True, text=True, timeout=40)
+                    o = (p.stdout + p.stderr).strip()
+                except subprocess.TimeoutExpired:
+                    o = "timeout"
+                first = o.splitlines()[0].strip() if o else ""
+                if "(error" in o:
+                    res["problems"].append("second solver %s reported an error on a %s query (%s): %s" % (name, expected, label, o[:200]))
+                elif first in ("sat", "unsat"):
+                    if first == expected:
+                        res[name + "_agree"] += 1
+                    else:
+                        res["problems"].append("second solver %s says %s where z3 5.1 said %s (check %s)" % (name, first, expected, label))
+                else:
+                    res[name + "_timeout"] += 1
+    finally:
+        shutil.rmtree(d, ignore_errors=True)
+    return res
+
+
 def _fmt_conc(c):
     w = dec_val(c.get("witness"))
     out = "input=%s" % ({k: ascii(v) for k, v in w.items()} if isinstance(w, dict) else ascii(w))
@@ -190,6 +223,11 @@ def main(argv=None):
         if not s["paths"]:
             problems.append("vacuous: no feasible path in %s" % fams[j[0]].label(j[1]))
 
+    # ---- second solver: a seeded sample of postcondition queries re-decided by the z3 4.8 and cvc5 1.0 binaries
+    second = second_solver(out.get("smt", []), 200 if a.tier == "thorough" else 12)
+    for msg in second["problems"]:
+        problems.append(msg)
+
     # ---- counterexamples: replay on the real build before reporting
     os.makedirs(os.path.join(VERIF, "replays"), exist_ok=True)
     violations, seen = [], set()
@@ -256,7 +294,8 @@ def main(argv=None):
                families=fam_ev, bounds=getattr(mod, "BOUNDS", {}).get(a.tier, ""),
                exhaustive_within_bounds=exhaustive, exhaustive=False,
                known_findings_hit=sorted(known_printed), problems=problems[:20],
-               assumption_cut_counts=out["assume"], build=binfo)
+               assumption_cut_counts=out["assume"], build=binfo,
+               second_solver={k: v for k, v in second.items() if k != "problems"})
     if level == "translation_validation":
         cov.update(programs=2, disagreements_checked=tot["discharged"])
     ev = dict(property_id=prop_id, tier=a.tier, seed=seed, level=level, coverage=cov,
